@@ -203,11 +203,48 @@ fn run(case: &Case, cx: &mut Cx) -> CaseResult {
     Ok(())
 }
 
+/// Scale probe (see probes.rs): single faults in a backup that writes 10 015 index hunks,
+/// on the creation of the second index sub-directory and on the hunks around it.
+fn enumerate(tier: Tier, idx: u32, of: u32, cx: &mut Cx) -> CaseResult {
+    if !crate::probes::mine(idx, of) {
+        return Ok(());
+    }
+    let (opts, tree) = crate::probes::many_hunks_tree(10_012);
+    let sc = Scenario { initial: tree, prefix: vec![], edits: vec![], opts };
+    let sub = cx.dir("many-hunks");
+    std::fs::create_dir_all(sub.join("r")).unwrap();
+    let cx2 = crate::engine::sub_cx(cx, sub.clone());
+    let base = Base::build(&sub, &sc);
+    let key = |verb: V, path: &str| Key { verb, path: path.to_string(), occ: 0 };
+    let mut plans = vec![
+        (key(V::CreateDir, "b0000/i/00001"), EK::Other),
+        (key(V::Write, "b0000/i/00001/000010000"), EK::AlreadyExists),
+    ];
+    if tier == Tier::Thorough {
+        plans.push((key(V::Write, "b0000/i/00000/000009999"), EK::PermissionDenied));
+        plans.push((key(V::CreateDir, "b0000/i/00001"), EK::NotFound));
+        plans.push((key(V::Write, "b0000/BANDTAIL"), EK::Other));
+    }
+    let mut n = 0u32;
+    for (k, kind) in plans {
+        crate::engine::heartbeat();
+        check_plan(&base, &sc, &cx2, Plan::FailAtKey { key: k.clone(), kind }, &mut n).map_err(|mut f| {
+            f.signature = format!("{}/probe-many-hunks", f.signature);
+            f.inner = json!({"key": k, "kind": kind});
+            f
+        })?;
+        cx.add_evals(1);
+        cx.inner_nontrivial += 1;
+    }
+    crate::engine::force_remove(&sub);
+    Ok(())
+}
+
 pub fn prop() -> Prop<Case> {
     Prop {
         id: "C04",
         level: "fault_enumeration",
-        rule: "scenario as C03 (small blocks/caps so several combined-block flushes happen) generated by proptest; inner domain enumerated per scenario: every operation of the logged storage trace of the backup (reads, lists, metadata, writes, create_dir; quick thins to <=60 evenly spaced) x {not-found, already-exists, permission-denied, other} as a single injected failure, plus generated multi-fault plans (1-7 failing positions, a quarter of them dense with 8-39). Oracle per plan: no panic; every file that existed before is byte-identical afterwards; every File entry the independent decoder finds in any band reassembles to exactly that path's bytes in the tree that band was made from (never dangling, never another file's); if the backup reports complete success (Ok, no monitor error, stats.errors==0) the band is closed and restores exactly; a closed band that does not restore exactly implies an error was reported. Non-trivial = the failing operation is a write/create_dir under d/ or the band directory, or a read of an index hunk, or a plan with >=2 faults; counted per (scenario, plan), distinct by construction",
+        rule: "scenario as C03 (small blocks/caps so several combined-block flushes happen) generated by proptest; inner domain enumerated per scenario: every operation of the logged storage trace of the backup (reads, lists, metadata, writes, create_dir; quick thins to <=60 evenly spaced) x {not-found, already-exists, permission-denied, other} as a single injected failure, plus generated multi-fault plans (1-7 failing positions, a quarter of them dense with 8-39). Oracle per plan: no panic; every file that existed before is byte-identical afterwards; every File entry the independent decoder finds in any band reassembles to exactly that path's bytes in the tree that band was made from (never dangling, never another file's); if the backup reports complete success (Ok, no monitor error, stats.errors==0) the band is closed and restores exactly; a closed band that does not restore exactly implies an error was reported. Non-trivial = the failing operation is a write/create_dir under d/ or the band directory, or a read of an index hunk, or a plan with >=2 faults; counted per (scenario, plan), distinct by construction. Fixed scale probe per run: a backup writing 10 015 index hunks with a fault on the creation of the second index sub-directory and on its first hunk (thorough: three more)",
         assumptions: &[
             "an injected failure has no side effect on the directory (the operation is not attempted)",
             "faults are injected at transport-operation granularity via the verif_hooks interceptor",
@@ -215,7 +252,7 @@ pub fn prop() -> Prop<Case> {
         cases: |t| t.pick(48, 400),
         strategy,
         run,
-        enumerate: None,
+        enumerate: Some(enumerate),
         exhaustive: |_| false,
         max_shrink_iters: 60,
     }
